@@ -3,6 +3,7 @@ package main
 // model.go — strings/slices, maps, interfaces and floats on top of core.go.
 
 import (
+	"os"
 	"fmt"
 	"go/types"
 	"math"
@@ -82,7 +83,35 @@ func (c *Ctx) strKey(x Val) Term {
 	if len(x.Arr) != 1 {
 		efail("strkey of non-byte slice")
 	}
-	return app("strkey", x.Arr[0], x.Off, x.Len)
+	t := app("strkey", x.Arr[0], x.Off, x.Len)
+	// all empty strings are equal: one key for length 0
+	if !c.faSeen["empty:"+t] && os.Getenv("VCGEN_NOKEYLEN") == "" {
+		c.faSeen["empty:"+t] = true
+		if !c.funDecl["emptykey"] {
+			c.funDecl["emptykey"] = true
+			c.emit("(declare-const emptykey StrKey)")
+			c.emit("(declare-fun keylen (StrKey) (_ BitVec 64))")
+		}
+		// equal strings have equal lengths
+		c.pending = append(c.pending, eq(app("keylen", t), x.Len))
+		// and equal bytes: stated for literals, so that distinct literals
+		// of one length have distinct keys
+		if lit, ok := c.constOfStr(x); ok && len(lit) <= maxLitExpand {
+			if !c.funDecl["keybyte"] {
+				c.funDecl["keybyte"] = true
+				c.emit("(declare-fun keybyte (StrKey (_ BitVec 64)) (_ BitVec 8))")
+			}
+			for i := 0; i < len(lit); i++ {
+				c.pending = append(c.pending, eq(app("keybyte", t, bvLit(64, uint64(i))), bvLit(8, uint64(lit[i]))))
+			}
+		}
+		if x.Len == bvLit(64, 0) {
+			c.pending = append(c.pending, eq(t, "emptykey"))
+		} else if !strings.HasPrefix(x.Len, "#x") && !strings.HasPrefix(x.Len, "(_ bv") {
+			c.pending = append(c.pending, imp(eq(x.Len, bvLit(64, 0)), eq(t, "emptykey")))
+		}
+	}
+	return t
 }
 
 // strEq: Go's == on strings. Against a literal it is expanded to bytes;
